@@ -1,0 +1,50 @@
+//! Event hooks for external runtime monitors.
+//!
+//! Only compiled with `--cfg rpgp_verif`. Without that cfg the `verif_event!` macro
+//! expands to nothing and this module does not exist.
+//!
+//! Events are appended to a thread-local log while recording is enabled. Monitors
+//! enable recording, drive the library, and then take the log.
+
+use std::cell::{Cell, RefCell};
+
+/// One observed event: a static site name plus three site-specific numbers.
+#[derive(Debug, Clone, Copy, PartialEq, Eq)]
+pub struct Event {
+    pub site: &'static str,
+    pub a: u64,
+    pub b: u64,
+    pub c: u64,
+}
+
+thread_local! {
+    static ENABLED: Cell<bool> = const { Cell::new(false) };
+    static LOG: RefCell<Vec<Event>> = const { RefCell::new(Vec::new()) };
+}
+
+/// Maximum number of events kept per thread (older events are kept, newer ones dropped).
+const MAX_EVENTS: usize = 1 << 20;
+
+/// Enables or disables recording on the current thread.
+pub fn enable(on: bool) {
+    ENABLED.with(|e| e.set(on));
+}
+
+/// Records an event (no-op unless recording is enabled on this thread).
+pub fn emit(site: &'static str, a: u64, b: u64, c: u64) {
+    if !ENABLED.with(|e| e.get()) {
+        return;
+    }
+    LOG.with(|l| {
+        if let Ok(mut l) = l.try_borrow_mut() {
+            if l.len() < MAX_EVENTS {
+                l.push(Event { site, a, b, c });
+            }
+        }
+    });
+}
+
+/// Takes the events recorded so far on the current thread.
+pub fn take() -> Vec<Event> {
+    LOG.with(|l| std::mem::take(&mut *l.borrow_mut()))
+}
